@@ -376,7 +376,7 @@ func newJSModel(c *core.Ctx, R string) (jm *jsModel, m *scanModel, initial strin
 	initial = ""
 	fields = map[string]string{"context.Type": "0", "context.ArrayHasItem": "false"}
 	if ns := c.P.Func("notations/jschema/scanner", "New"); ns != nil {
-		in := absint.New(absint.Config{InModule: c.P.FuncInModule, Inline: func(f *ssa.Function) bool { return f.Name() == "newContext" }})
+		in := absint.New(absint.Config{InModule: c.P.FuncInModule, Inline: func(f *ssa.Function) bool { return pinnedBare(f) == "newContext" }})
 		for _, o := range in.Run(ns, []absint.Val{absint.Param("file"), absint.Const{}}, nil) {
 			if p, ok := o.Val.(absint.Ptr); ok {
 				if v, ok := o.St.Mem(absint.Ptr{Base: p.Base, Path: ".step"}.Key()); ok {
